@@ -370,7 +370,7 @@ Proof. intros. unfold step. simpl. rewrite H. reflexivity. Qed.
 (* ---- the state of both sides when the entry function is entered ------------------------------------ *)
 
 Definition entry_morph (funcs : list fdef) (n : nat) : morph :=
-  {| mm := map MF funcs ++ map MA (rev (seq 0 n)); mv := []; mf := []; mc := []; mi := [] |}.
+  {| mm := map MF funcs ++ map MA (rev (seq 0 n)); mv := []; mf := []; mc := []; mi := []; mar := [] |}.
 
 Lemma entry_morph_ma : forall funcs n c a, mget (entry_morph funcs n) c = Some (MA a) ->
   exists i, c = (length funcs + i)%nat /\ (i < n)%nat /\ a = (n - 1 - i)%nat.
@@ -422,6 +422,9 @@ Proof.
   - intros a c [].
   - reflexivity.
   - intros c [].
+  - intros ar l0 [].
+  - intros ar elems Hn. destruct ar; discriminate Hn.
+  - reflexivity.
 Qed.
 
 (* ---- compile_program_correct_P ------------------------------------------------------------ *)
@@ -590,20 +593,29 @@ Proof.
       rewrite (step_halt X prog (S retL) a glob h2 o2 _ S7). cbn [v_heap v_out mkst]. unfold hint. rewrite Hhz, Ho2. reflexivity. }
     destruct (run_star X prog _ _ (star_trans X prog _ _ _ Hboot Hst2) 2%nat _ Hfin) as (k' & Hk'); [discriminate|].
     exists k', z. split; [exact Hk' | exact Hvz].
-  - destruct Hrun as (-> & h2 & t & m2 & Hst2 & _ & _).
+  - destruct Hrun as (_ & h2 & t & m2 & Hst2 & _ & _).
     assert (Epred : Nat.pred retL = (ce + 5)%nat) by (unfold retL; cbn [Nat.pred]; lia).
     rewrite Epred, stub_handler in Hst2.
     assert (Hfin : run X prog 2 (mkst (ce + 8) (t :: glob) h2 (out st2)
-                                      {| r_fp := 0; r_gp := 0; r_exc := Some ExDivision; r_frames := [] |})
-                   = VExc ExDivision (rev (out st2))).
+                                      {| r_fp := 0; r_gp := 0; r_exc := Some ex; r_frames := [] |})
+                   = VExc ex (rev (out st2))).
     { cbn [run]. replace (ce + 8)%nat with (S (S retL)) by (unfold retL; lia).
       rewrite (CompileCorrect4.step_label X _ prog (S (S retL)) (t :: glob) h2 (out st2) S8).
-      rewrite (step_unhandled X prog (S (S (S retL))) (t :: glob) h2 (out st2) 0 0 ExDivision [] S9). reflexivity. }
+      rewrite (step_unhandled X prog (S (S (S retL))) (t :: glob) h2 (out st2) 0 0 ex [] S9). reflexivity. }
     destruct (run_star X prog _ _ (star_trans X prog _ _ _ Hboot Hst2) 2%nat _ Hfin) as (k' & Hk'); [discriminate|].
     exists k'. exact Hk'.
 Qed.
 
 End Main.
+
+(* level 7: level 6 + one-dimensional int arrays *)
+Theorem compile_program_correct_P7 : forall p args, prog_in_P 7 p = true -> forall fuel,
+  match run_program fuel p args with
+  | OResult v printed => is_intv v = true -> exists k z, run_vm p k args = VRet z printed /\ val_rel v z
+  | OUnhandled ex printed => exists k, run_vm p k args = VExc ex printed
+  | OFuel | OStuck => True
+  end.
+Proof. intros p args H fuel. exact (compile_program_correct_P p args 7 H fuel). Qed.
 
 (* the two levels of the closure fragment: 5 — no function object is used by copy, assignments to names in scope;
    6 — the name of a top-level function / of the running named nested function may be used as a VALUE (the
